@@ -48,6 +48,8 @@ NextFr ==
            [] T.ins.b \in {"ret", "retv"} -> IF fr = <<>> THEN fr ELSE SubSeq(fr, 1, Len(fr) - 1)
            [] T.ins.b = "call" /\ ~T.callproc /\ fr # <<>> -> [fr EXCEPT ![Len(fr)][2] = @ + 1]
            [] T.ins.b = "ijmp" /\ fr # <<>> -> [fr EXCEPT ![Len(fr)][2] = @ - 1]
+           \* RETURN <label> discards the return address with a `pop` and jumps
+           [] T.ins.b = "pop" /\ T.retpop /\ fr # <<>> -> [fr EXCEPT ![Len(fr)][2] = @ - 1]
            [] OTHER -> fr
 
 Step == /\ verdict = "run"
